@@ -48,6 +48,22 @@ impl<T: PestParser> Parser for T {
             input.as_ref(),
             "parts of the input where not parsed"
         );
+        // numerals and arities must fit the integer types they are parsed into
+        for pair in pairs.clone().flatten() {
+            let fits = match format!("{:?}", pair.as_rule()).as_str() {
+                "integer" | "numeral" => pair.as_str().parse::<isize>().is_ok(),
+                "arity" => pair.as_str().parse::<usize>().is_ok(),
+                _ => true,
+            };
+            if !fits {
+                return Err(pest::error::Error::new_from_span(
+                    pest::error::ErrorVariant::CustomError {
+                        message: "number out of range".to_string(),
+                    },
+                    pair.as_span(),
+                ));
+            }
+        }
         pairs.next_back(); // remove EOI
         Ok(Self::translate_pairs(pairs))
     }
